@@ -180,10 +180,16 @@ def run_case(c):
             gv_after = np.array(ph.get_group_velocity_at_q(qs[0]))
             f_after = np.array(ph.get_frequencies(qs[0]))
             obs["n_gv_after_model_change"] = obs.get("n_gv_after_model_change", 0) + 1
-            if np.abs(f_after - f_before * np.sqrt(s_m)).max() < 1e-9 * max(np.abs(f_before).max(), 1e-12):
-                if np.abs(gv_after - gv_before * np.sqrt(s_m)).max() > 1e-8 * max(np.abs(gv_before).max(), 1e-12):
+            # phonopy treats modes closer than 1e-4 (absolute, in its frequency unit) as degenerate and diagonalises dD/dq inside the set: scaling
+            # the model can move a near-degenerate pair across that tolerance, which legitimately changes its two velocities (sweep 8 seed 54:
+            # gap 9.7e-5 -> 1.16e-4) - only modes well clear of the tolerance before and after are compared
+            gaps_b = np.array([min(abs(f_before[i] - f_before[k]) for k in range(len(f_before)) if k != i) if len(f_before) > 1 else 1.0 for i in range(len(f_before))])
+            clear = gaps_b > 3e-4
+            if clear.any() and np.abs(f_after - f_before * np.sqrt(s_m)).max() < 1e-9 * max(np.abs(f_before).max(), 1e-12):
+                obs["n_gv_after_model_change_modes"] = obs.get("n_gv_after_model_change_modes", 0) + int(clear.sum())
+                if np.abs(gv_after[clear] - gv_before[clear] * np.sqrt(s_m)).max() > 1e-8 * max(np.abs(gv_before).max(), 1e-12):
                     bad("group_velocity_stale", "after the force constants were multiplied by %.2f the frequencies scale by sqrt(s) but the group velocities at q=%s do not (max deviation %.3e of %.3e)" % (
-                        s_m, np.round(qs[0], 4).tolist(), np.abs(gv_after - gv_before * np.sqrt(s_m)).max(), np.abs(gv_before).max()), **feat)
+                        s_m, np.round(qs[0], 4).tolist(), np.abs(gv_after[clear] - gv_before[clear] * np.sqrt(s_m)).max(), np.abs(gv_before).max()), **feat)
             ph.force_constants = fc_keep
         # the same through the band-structure route with band connection (modes re-ordered along the path): the velocity reported in slot b must be
         # the gradient of the frequency reported in slot b - reference: the (frequency, velocity) pairs of the single-q route at the same q
